@@ -160,6 +160,13 @@ bool TypeChecker::isAssignableType(const Type* ty, const SyntaxNode* node)
             auto tagTyDecl = tagTy->declaration();
             if (!tagTyDecl)
                 return true;
+            // Structures that (invalidly) contain one another by value.
+            for (auto outerTy : tysUnderAssignabilityCheck_) {
+                if (outerTy == ty)
+                    return true;
+            }
+            tysUnderAssignabilityCheck_.push_back(ty);
+            auto assignable = true;
             for (const auto& membDecl : tagTyDecl->members()) {
                 auto membTy = membDecl->type();
                 // A member of array type doesn't make the aggregate
@@ -168,10 +175,13 @@ bool TypeChecker::isAssignableType(const Type* ty, const SyntaxNode* node)
                     membTy = membTy->asArrayType()->elementType();
                 if (!membTy || membTy == ty)
                     continue;
-                if (!isAssignableType(membTy, node))
-                    return false;
+                if (!isAssignableType(membTy, node)) {
+                    assignable = false;
+                    break;
+                }
             }
-            return true;
+            tysUnderAssignabilityCheck_.pop_back();
+            return assignable;
         }
         default:
             return true;
